@@ -74,3 +74,20 @@ def taken_from(t, place_pred):
 
 def payload_of(t, base_pred, variant='Some'):
     return t[0] == 'variant' and t[2] == variant and t[3] == 0 and base_pred(t[1])
+
+def variant_truth(pc, term_pred, variant, siblings):
+    """True / False / None: what the path condition says about `term is variant` for an enum with the given variants
+    (a test against another variant, or the exclusion of all the others, decides it as well)."""
+    others = [v for v in siblings if v != variant]
+    excluded = set()
+    for a, t in pc:
+        if a[0] == 'is' and term_pred(a[1]):
+            if a[2] == variant:
+                return t
+            if a[2] in others:
+                if t:
+                    return False
+                excluded.add(a[2])
+    if others and excluded >= set(others):
+        return True
+    return None
